@@ -66,7 +66,11 @@ d = os.path.join("/verif/seeded", sid)
 os.makedirs(d, exist_ok=True)
 open(os.path.join(d, "patch.diff"), "w").write(patch)
 for f in demo_files:
-    shutil.copy(os.path.join(wt, "out", f), os.path.join(d, f))
+    src = os.path.join(wt, "out", f)
+    if os.path.isdir(src):
+        shutil.copytree(src, os.path.join(d, f), dirs_exist_ok=True)
+    else:
+        shutil.copy(src, os.path.join(d, f))
 meta.update(dict(seed_id=sid, breaks=meta.get("property"), confirmed=res, touched=touched,
                  what_i_ran=["go build ./...", "existing tests of touched packages with the change", "demo with and without the change",
                              "VERIF_REPO=<worktree> ./check <props> --tier quick"]))
